@@ -93,6 +93,12 @@ def query_harness(name, n, perm_mode, top_kinds, edits):
                     if len(got) != len(set(got)) or set(got) != want:
                         fail("C17: %s(%s) = %s, expected %s" % (meth, ",".join(map(str, starts)),
                                                                 sorted(map(str, got)), sorted(map(str, want))), info)
+        try:
+            got = list(sched.iterate_jobs())
+        except Exception as e:
+            fail("C17: iterate_jobs() raised %s: %s" % (type(e).__name__, e), info)
+        if len(got) != len(members) or set(got) != mset:
+            fail("C17: iterate_jobs() = %s, the jobs are %s" % (got, members), info)
         got = list(sched.entry_jobs())
         want = [j for j in members if not j.required]
         if len(got) != len(set(got)) or set(got) != set(want):
